@@ -25,6 +25,7 @@ import (
 	"unicode/utf8"
 
 	"github.com/cloudwego/eino/compose"
+	"github.com/cloudwego/eino/schema"
 
 	"verif/harness/cmd/c12/alt"
 	"verif/harness/lib"
@@ -1180,7 +1181,8 @@ type Case struct {
 	Structs   []SDecl  `json:"structs,omitempty"`
 	TopNil    bool     `json:"topnil,omitempty"` // Marshal(nil)
 	Probe     string   `json:"probe,omitempty"`  // registry probe: "dup-key" | "dup-type" (GenericRegister must refuse)
-	BB        int      `json:"bb,omitempty"`     // black-box companion: 1 = Pregel graph, 2 = DAG graph, 3 = DAG fan-in, 4..6 = the same through Stream, 7..10 = the value itself as pending input of type any, 11..14 = a nil pending input (see runBB)
+	BB        int      `json:"bb,omitempty"`     // black-box companion: 1 = Pregel graph, 2 = DAG graph, 3 = DAG fan-in, 4..6 = the same through Stream, 7..10 = the value itself as pending input of type any, 11..14 = a nil pending input, 15..16 = an empty stream as pending input (see runBB)
+	Conv      int      `json:"conv,omitempty"`   // stream conversion of a pending input around an interrupt: the stream has no chunk (1, 4), the one chunk nil (2, 5), the one chunk that is the value (3, 6); resumed through Stream (1..3) or Invoke (4..6); 7..10: written by a run without streams, the pending input is nil (7, 9) or the value (8, 10), resumed through Stream (7, 8) or Invoke (9, 10) (see runConv)
 	T         *Ty      `json:"t,omitempty"`
 	V         *V       `json:"v,omitempty"`
 	Malformed []string `json:"malformed,omitempty"` // why the value is not in the supported universe
@@ -1398,8 +1400,14 @@ func runBB(mode int, val any) (state any, copies []any, bytes int, phase string,
 	// modes 7..14: the value itself (not a map holding it) is node a's output and node b's pending
 	// input, both of type any (7..10), and the same with node a returning nil, so that the pending
 	// input is a nil interface (11..14); each for Pregel / DAG through Invoke, then through Stream
+	// modes 15, 16: node a is a streaming node that emits no chunk at all, node b a streaming consumer:
+	// the pending input is an empty stream (Pregel / DAG, through Stream only: a stream without chunks
+	// cannot be made into a value for Invoke)
 	plumb := 0
-	if mode > 6 {
+	switch {
+	case mode > 14:
+		plumb, mode = 3, 4+(mode-15)%2
+	case mode > 6:
 		k := mode - 7
 		plumb = 1 + k/4
 		k %= 4
@@ -1421,6 +1429,7 @@ func runBB(mode int, val any) (state any, copies []any, bytes int, phase string,
 	var bInput map[string]any
 	var bDirect any
 	bCalled := false
+	bChunks := 0
 	setState := func(ctx context.Context) error {
 		return compose.ProcessState[*Holder](ctx, func(_ context.Context, h *Holder) error {
 			h.V = val
@@ -1438,6 +1447,30 @@ func runBB(mode int, val any) (state any, copies []any, bytes int, phase string,
 		if err = g.AddLambdaNode("b", compose.InvokableLambda(func(ctx context.Context, in map[string]any) (*Holder, error) {
 			bInput, bCalled = in, true
 			return &Holder{V: in["v"], M: in}, nil
+		})); err != nil {
+			return nil, nil, 0, "build", err
+		}
+	} else if plumb == 3 {
+		if err = g.AddLambdaNode("a", compose.StreamableLambda(func(ctx context.Context, in map[string]any) (*schema.StreamReader[any], error) {
+			e := setState(ctx)
+			return schema.StreamReaderFromArray([]any{}), e
+		})); err != nil {
+			return nil, nil, 0, "build", err
+		}
+		if err = g.AddLambdaNode("b", compose.TransformableLambda(func(ctx context.Context, in *schema.StreamReader[any]) (*schema.StreamReader[*Holder], error) {
+			bCalled = true
+			defer in.Close()
+			for {
+				_, e := in.Recv()
+				if e == io.EOF {
+					break
+				}
+				if e != nil {
+					return nil, e
+				}
+				bChunks++
+			}
+			return schema.StreamReaderFromArray([]*Holder{{M: map[string]any{"x": "in"}}}), nil
 		})); err != nil {
 			return nil, nil, 0, "build", err
 		}
@@ -1541,9 +1574,14 @@ func runBB(mode int, val any) (state any, copies []any, bytes int, phase string,
 			return state, nil, bytes, "resume", fmt.Errorf("node b did not run on the pending input: %v", out)
 		}
 		return state, []any{bDirect, out.V}, bytes, "", nil
-	default:
+	case 2:
 		if !bCalled || out == nil || bDirect != nil || out.V != nil {
 			return state, nil, bytes, "resume", fmt.Errorf("node b did not receive the nil pending input: called=%v input=%v out=%v", bCalled, bDirect, out)
+		}
+		return state, nil, bytes, "", nil
+	default:
+		if !bCalled || out == nil || bChunks != 0 {
+			return state, nil, bytes, "resume", fmt.Errorf("node b did not receive the empty pending stream: called=%v chunks=%d out=%v", bCalled, bChunks, out)
 		}
 		return state, nil, bytes, "", nil
 	}
@@ -1702,6 +1740,10 @@ func runCase(c *Case) (res lib.Result) {
 			return
 		}
 		in = rv.Interface()
+	}
+
+	if c.Conv != 0 && !c.TopNil {
+		return runConv(c, w, in, rv)
 	}
 
 	// ---- the implementation
@@ -1900,6 +1942,107 @@ func runCase(c *Case) (res lib.Result) {
 	}
 	if len(c.Malformed) == 0 {
 		res.Tags = append(res.Tags, "malformed:none")
+	}
+	return
+}
+
+// runConv: a pending input of a node of output type any, as the stream a streaming run holds at
+// an interrupt, is converted for the checkpoint, written, read back and restored (hook
+// VerifC12ConvertRestore): the successor must be handed what it would have been handed without
+// the interrupt - a stream with the same chunks (resumed through Stream) or the value (Invoke).
+func runConv(c *Case, w *world, in any, rv reflect.Value) (res lib.Result) {
+	pat := (c.Conv - 1) % 3 // 0: no chunk, 1: the chunk nil, 2: the chunk that is the value
+	stream := c.Conv <= 3
+	written := c.Conv <= 6 // written by a streaming run
+	if !written {
+		pat = 1 + (c.Conv-7)%2
+		stream = c.Conv <= 8
+	}
+	var chunks []any
+	switch pat {
+	case 0:
+		chunks = []any{}
+	case 1:
+		chunks = []any{nil}
+	default:
+		chunks = []any{in}
+	}
+	var stored, value any
+	var restored []any
+	var err error
+	p := lib.Recover(func() {
+		if written {
+			stored, restored, value, err = compose.VerifC12ConvertRestore(chunks, stream)
+		} else {
+			stored, restored, value, err = compose.VerifC12ConvertRestoreValue(chunks[0], stream)
+		}
+	})
+	o := Obs{Class: "ok-equal"}
+	handed := restored
+	if !stream {
+		handed = []any{value}
+	}
+	want := chunks
+	if !stream && pat == 0 {
+		want = []any{nil} // without streams a stream that had no chunk is the nil value
+	}
+	switch {
+	case p != nil:
+		o = Obs{Class: "panic", Msg: fmt.Sprint(p)}
+		res.Oracle, res.Sig = "stream conversion of a checkpoint value panicked: "+o.Msg, "panic"
+	case err != nil:
+		o = Obs{Class: "dec-error", Msg: err.Error()}
+		res.Oracle, res.Sig = "stream conversion of a checkpoint value failed: "+err.Error(), "error-on-supported"
+	default:
+		same := len(handed) == len(want)
+		for i := 0; same && i < len(want); i++ {
+			same = (handed[i] == nil) == (want[i] == nil) &&
+				(want[i] == nil || equiv(reflect.ValueOf(want[i]), reflect.ValueOf(handed[i]), eqExact))
+		}
+		if !same {
+			o.Class = "ok-different"
+			what := fmt.Sprintf("a stream of %d chunk(s) %v (streaming run)", len(chunks), chunks)
+			if !written {
+				what = fmt.Sprintf("the value %v (run without streams)", chunks[0])
+			}
+			res.Oracle = fmt.Sprintf("a pending input that was %s is handed to the successor as %v after the resume (through Stream: %v)", what, handed, stream)
+			res.Sig = "ok-different"
+		}
+	}
+	res.Obs = o
+	res.Nontrivial = true
+	res.Tags = []string{"class:" + o.Class, fmt.Sprintf("via:stream-conversion-%d", c.Conv), "malformed:none"}
+	if p != nil || err != nil || caseUsesExt(c) {
+		return
+	}
+	chunkCoq := func(l []any) (string, bool) {
+		var items []string
+		for _, x := range l {
+			if x == nil {
+				items = append(items, "None")
+				continue
+			}
+			s, ok := w.coqVal(reflect.ValueOf(x))
+			if !ok {
+				return "", false
+			}
+			items = append(items, "(Some "+s+")")
+		}
+		return lib.CoqList(items), true
+	}
+	held := "2"
+	switch {
+	case stored == nil:
+		held = "0"
+	case compose.VerifC12IsNilChunk(stored):
+		held = "1"
+	}
+	sc, ok1 := chunkCoq(chunks)
+	hc, ok2 := chunkCoq(handed)
+	if ok1 && ok2 && written {
+		res.CoqTerm = lib.CoqApp("Conv", sc, lib.CoqBool(stream), "("+held+"%N)", hc)
+	} else if ok1 && ok2 {
+		res.CoqTerm = lib.CoqApp("ConvV", sc[1:len(sc)-1], lib.CoqBool(stream), "("+held+"%N)", hc)
 	}
 	return
 }
@@ -2724,7 +2867,10 @@ func genCase(r *lib.Rng, tier string, i int) *Case {
 	}
 	sort.Strings(c.Malformed)
 	if len(c.Malformed) == 0 && i%6 == 2 {
-		c.BB = 1 + (i/6)%14 // through a real graph: interrupt, store, resume (see runBB)
+		c.BB = 1 + (i/6)%16 // through a real graph: interrupt, store, resume (see runBB)
+	}
+	if len(c.Malformed) == 0 && i%12 == 5 {
+		c.Conv = 1 + (i/12)%10 // the value as a stream / as itself in a checkpoint (see runConv)
 	}
 	return c
 }
